@@ -239,8 +239,13 @@ func (p *c16) Run(raw json.RawMessage) eng.Result {
 		return res
 	}
 	if _, perr := xpath.Parse("z" + c.Op + c.Literal); perr != nil {
-		// outside the XPath subset the library accepts (C13 covers what then happens)
-		res.Outcomes = []string{"rejected-by-xpath-subset"}
+		// a name, one of the six operators and a number (signed, with a fraction) or a quoted string:
+		// every expression of this matrix is a comparison the property is about
+		class := "literal"
+		if strings.HasPrefix(c.Literal, "-") {
+			class = "negative-literal"
+		}
+		res.Add(fmt.Sprintf("C16/parse/%s/%s/comparison-refused", c.Type, class), "z"+c.Op+c.Literal+": "+perr.Error())
 		return res
 	}
 	zLeaf := m.Definition("z").(meta.Leafable)
